@@ -47,6 +47,22 @@ CHECKS = {
          "For each sampled program (new store, new root, splits, updates/removes, out-of-node values, two stores) every intercepted call made by the subject in its body, Commit and rollback is failed once with every applicable error kind; judged: Commit result vs warm+cold dumps (never a mixture), Count, and a fault-free immediate retry that must commit within 60 simulated seconds (no waiting for an expiry). Exhaustive per sampled program for single faults; programs are sampled.",
          "Trusted: simulator, KV model. Faults are injected above fs.retryIO (an error that persisted after sop's retries). Pairs of faults are not enumerated. 'Commit reports an error' is enforced as 'an error is reported whenever the changes did not all take effect' (a failure sop absorbs may end in success).",
          "7/C07"),
+ "C08": (ENUM, "deterministic simulation + systematic crash-point enumeration: every durable mutation inside Commit x {before, after, torn prefix lengths}, restart, recovery under an advanced simulated clock",
+         "For each sampled program every durable mutation of the commit (blob files, registry blocks incl. torn blocks at every 512-byte boundary, store metadata files, transaction and priority logs) is a crash point, in three variants (process dies before / right after / in the middle of the write). After a cold restart transactions run at +0, +6 min, +75 min, +2 h 10 min and +5 h of simulated time; stores must stay readable at all times, show S0 or S0+W jointly once the recovery window has passed, keep Count consistent, and an unrelated store must stay writable. Exhaustive per sampled program.",
+         "Trusted: simulator; crash = tasks never resumed + volatile state (caches, locks, process globals) dropped inside one OS process; files survive exactly as written (no lost directory entries, writes other than the torn one are atomic). A half-applied state is tolerated until the last recovery observation (the property grants the documented waiting periods).",
+         "7/C08"),
+ "C09": (EXPL, "deterministic simulation: sampled crash points + later transactions under an advanced simulated clock; bounded-liveness oracle on log files and writer success",
+         "Crash points sampled from C08's space; after restart, transactions at the documented thresholds with time advanced. 8.5 simulated hours after the crash no transaction/priority log of the crashed writer may remain and a writer touching the same keys must commit.",
+         "Trusted: simulator. Standalone mode only (in-memory L2: a dead process's locks vanish with it); the clustered/Redis variant is not covered. Liveness bound stated in simulated hours, not implementation constants.",
+         "7/C09"),
+ "C10": (EXPL, "deterministic simulation: seeded histories with injected failures, crashes and recovery; raw structural walk + cold API traversal as oracle",
+         "Seeded histories (commits, rollbacks, concurrency, injected I/O/cache failures, crashes with restart, then maintenance at the documented thresholds) over all four value placements; oracle = raw walk of registry segment files and node blobs from every store root (every reachable node/value blob must exist and parse) plus a cold full traversal through the public API.",
+         "Trusted: simulator, the raw walker (decodes registry blocks with sop's public handle decoder, node blobs as JSON). Probe 'items with ValueNeedsFetch on disk' is reported: where it stays 0 the out-of-node half is vacuous for that run.",
+         "7/C10"),
+ "C11": (EXPL, "deterministic simulation: seeded crash-free histories with injected commit failures + maintenance under an advanced clock; directory listing vs reachable set",
+         "Seeded crash-free histories (commits, rollbacks, injected commit failures, occasional concurrency) followed by 8.5 simulated hours of transactions at the documented thresholds; oracle = raw audit: blob files == reachable blobs, registry entries == reachable logical ids, no .log/.plg/.cow files.",
+         "Trusted: simulator, raw walker. Dangling inactive ids inside live handles are not counted as entries.",
+         "7/C11"),
 }
 
 NOT_APPLICABLE = {
